@@ -433,33 +433,73 @@ impl CacheObliviousSort {
     }
 
     /// Cache-aware quicksort with optimal partitioning
+    ///
+    /// Recurses into the smaller part and loops over the larger one, so the recursion depth
+    /// stays logarithmic for every input; with a last-element pivot and two-way partitioning
+    /// sorted and all-equal slices recursed once per element and overflowed the stack.
     fn cache_aware_quicksort<T: Clone + Ord>(&mut self, data: &mut [T], low: usize, high: usize) {
-        if low < high {
-            let pivot = self.cache_aware_partition(data, low, high);
-            
-            if pivot > 0 {
-                self.cache_aware_quicksort(data, low, pivot - 1);
-            }
-            if pivot + 1 <= high {
-                self.cache_aware_quicksort(data, pivot + 1, high);
+        let (mut low, mut high) = (low, high);
+        while low < high {
+            // data[low..lt] < pivot, data[lt..=gt] == pivot, data[gt + 1..=high] > pivot
+            let (lt, gt) = self.cache_aware_partition(data, low, high);
+            let left_len = lt - low;
+            let right_len = high - gt;
+
+            if left_len < right_len {
+                if left_len > 1 {
+                    self.cache_aware_quicksort(data, low, lt - 1);
+                }
+                low = gt + 1;
+            } else {
+                if right_len > 1 {
+                    self.cache_aware_quicksort(data, gt + 1, high);
+                }
+                if left_len == 0 {
+                    break;
+                }
+                high = lt - 1;
             }
         }
     }
 
-    /// Cache-aware partitioning for quicksort
-    fn cache_aware_partition<T: Clone + Ord>(&mut self, data: &mut [T], low: usize, high: usize) -> usize {
-        let pivot = data[high].clone();
+    /// Three-way partitioning around the median of the first, middle and last element.
+    /// Returns the bounds `(lt, gt)` of the block of elements equal to the pivot.
+    fn cache_aware_partition<T: Clone + Ord>(&mut self, data: &mut [T], low: usize, high: usize) -> (usize, usize) {
+        let mid = low + (high - low) / 2;
+        let pivot = {
+            let (a, b, c) = (&data[low], &data[mid], &data[high]);
+            let median = if (a <= b) == (b <= c) {
+                b
+            } else if (b <= a) == (a <= c) {
+                a
+            } else {
+                c
+            };
+            median.clone()
+        };
+
+        let mut lt = low;
         let mut i = low;
-        
-        for j in low..high {
-            if data[j] <= pivot {
-                data.swap(i, j);
-                i += 1;
+        let mut gt = high;
+        while i <= gt {
+            match data[i].cmp(&pivot) {
+                std::cmp::Ordering::Less => {
+                    data.swap(lt, i);
+                    lt += 1;
+                    i += 1;
+                }
+                std::cmp::Ordering::Greater => {
+                    data.swap(i, gt);
+                    if gt == 0 {
+                        break;
+                    }
+                    gt -= 1;
+                }
+                std::cmp::Ordering::Equal => i += 1,
             }
         }
-        
-        data.swap(i, high);
-        i
+
+        (lt, gt)
     }
 
     /// Cache-aware merge sort
